@@ -94,7 +94,10 @@ def chain_list(draw, Lmax=8, nmax=12, for_mpo=False):
 
 
 def _coeff_form(c, k):
-    """Legal argument forms of one and the same coefficient value: Python float / int, NumPy scalar, complex with zero imaginary part."""
+    """Legal argument forms of one and the same coefficient value: Python float / int, NumPy scalar, complex with zero imaginary part.
+    (Single-precision NumPy scalars are deliberately not among them: under NumPy's promotion rules a float32 coefficient makes the sums
+    of coefficients single precision, which is the caller's choice and not a defect of the library - an earlier version of this
+    generator raised that false alarm against C05 / C16 within one run and was corrected.)"""
     if k % 4 == 1 and float(c).is_integer() and abs(c) < 2**31:
         return int(c)
     if k % 4 == 2:
